@@ -37,6 +37,12 @@ FEAT = {'keypoints': ('reconstruction/keypoints', 'keypoints.txt', '.kpt', 3),
         'descriptors': ('reconstruction/descriptors', 'descriptors.txt', '.desc', 5),
         'global_features': ('reconstruction/global_features', 'global_features.txt', '.gfeat', 4)}
 MATCHES_DIR = 'reconstruction/matches'
+# small side-effect free modules of the standard library that neither kapture nor numpy import
+DOTTED_MODULES = ['colorsys', 'sched', 'filecmp', 'wave', 'cmd', 'netrc', 'tabnanny', 'pyclbr', 'symtable', 'fileinput',
+                  'getopt', 'stringprep', 'quopri', 'modulefinder']
+PLANTED = 'c16_planted'          # a python file shipped inside the dataset; it only creates the marker file
+PLANTED_SRC = ('import os\n'
+               'open(os.path.join(os.path.dirname(os.path.dirname(os.path.abspath(__file__))), %r), "w").close()\n' % MARKER)
 
 # ======================================================================================================
 #  worker (runs in the subprocess): audit hook, warm-up, leaf oracles, the two entry points
@@ -230,6 +236,7 @@ def _w_case(req):
     os.chdir(base)
     res = {}
     del _EVENTS[:]
+    mods0 = set(sys.modules)
     _ACTIVE[0] = True
     try:
         leaves = _w_leaves(root, op)
@@ -238,7 +245,16 @@ def _w_case(req):
     res['leaves'] = leaves
     res['leaf_events'] = [[k, _rel(p, root), d] for k, p, d in _EVENTS
                           if k not in ('Read', 'List')]
+    res['leaf_modules'] = sorted(set(sys.modules) - mods0)
     del _EVENTS[:]
+    importable = bool(req.get('importable'))
+    if importable:
+        # the situation of `cd dataset; python -c ...` / an interactive session: the dataset folder is importable
+        os.chdir(root)
+        sys.path.insert(0, '')
+        import importlib
+        importlib.invalidate_caches()
+    mods1 = set(sys.modules)
     _ACTIVE[0] = True
     try:
         _w_run(op, root, req.get('up_types') or [None, None, None])
@@ -247,6 +263,13 @@ def _w_case(req):
         res['outcome'], res['exc'] = 'error', '%s: %s' % (type(e).__name__, str(e)[:200])
     finally:
         _ACTIVE[0] = False
+    res['new_modules'] = sorted(set(sys.modules) - mods1)      # second, independent observation of imports
+    if importable:
+        try:
+            sys.path.remove('')
+        except ValueError:
+            pass
+        os.chdir(base)
     res['events'] = [[k, _rel(p, root), d] for k, p, d in _EVENTS]
     del _EVENTS[:]
     return res
@@ -279,7 +302,7 @@ def _worker_main():
             if not hooked:
                 sys.addaudithook(_hook)
                 hooked = True
-            res = {'hooked': True}
+            res = {'hooked': True, 'absent': [m for m in DOTTED_MODULES if m not in sys.modules]}
         elif req['cmd'] == 'case':
             res = _w_case(req)
         else:
@@ -483,6 +506,12 @@ def _base_v10():
     return _BASE_CACHE['v10']
 
 
+def _bin_content(rel):
+    if rel.endswith('.py'):
+        return PLANTED_SRC.encode()
+    return b'{}' if rel.endswith('.json') else b'\0' * 16
+
+
 def _write_tree(root, files, bins):
     for rel, text in files.items():
         p = os.path.join(root, rel)
@@ -493,7 +522,7 @@ def _write_tree(root, files, bins):
         p = os.path.join(root, rel)
         os.makedirs(os.path.dirname(p), exist_ok=True)
         with open(p, 'wb') as f:
-            f.write(b'{}' if rel.endswith('.json') else b'\0' * 16)
+            f.write(_bin_content(rel))
 
 
 # ---------------------------------------------------------------- worker client
@@ -513,6 +542,10 @@ class _Worker:
         roots = []
         full, v10 = _base_full(), _base_v10()
         variants = [('load', full, None), ('upgrade', v10, [None, None, None]), ('upgrade', v10, ['a', 'b', 'c'])]
+        dotted = dict(full[0])
+        dotted['sensors/records_camera.txt'] = dotted['sensors/records_camera.txt'].replace('cam0/0000.jpg', 'a.b/c.jpg')
+        dotted[SENSORS] = dotted[SENSORS].replace('lid0, velodyne, lidar', 'lid0, os.path.join, numpy.float32')
+        variants.append(('load', (dotted, full[1]), None))
         for p in sorted(full[0]):
             broken = dict(full[0])
             broken[p] = broken[p].rstrip('\n') + '\nx, y\n!, ?, ?, ?, ?, ?, ?, ?, ?\n'
@@ -526,7 +559,7 @@ class _Worker:
             _write_tree(r, tree[0], tree[1])
             roots.append({'op': op, 'root': r, 'up_types': up})
         self.request({'cmd': 'warm', 'roots': roots})
-        self.request({'cmd': 'hook'})
+        self.absent = self.request({'cmd': 'hook'}).get('absent', [])
         shutil.rmtree(wdir, ignore_errors=True)
 
     def request(self, req):
@@ -600,6 +633,13 @@ P_MISC = [('empty', ''), ('comma', 'x, y'), ('comma', ','), ('hash', '#x'), ('ha
           ('unicode', '名前'), ('unicode', '\u00a0'), ('unicode', 'a\u2003b'), ('tab', 'a\tb'), ('space', 'a b'),
           ('long', 'x' * 3000), ('nul', 'a\x00b'), ('cr', 'a\rb'), ('kw', 'camera'), ('kw', 'SIFT'), ('kw', 'rig0'),
           ('kw', 'cam0'), ('kw', 'gnss')]
+# dotted names: module.attribute shapes (a loader that resolves them imports the module)
+P_DOTTED = ([('dotted-stdlib', m + '.' + a) for m, a in zip(DOTTED_MODULES, ['Lidar', 'Sensor', 'X', 'Wave_read', 'Cmd', 'netrc',
+                                                                             'check', 'Class', 'SymbolTable', 'FileInput',
+                                                                             'getopt', 'in_table_a1', 'encode', 'Module'])]
+            + [('dotted-known', x) for x in ('os.path.join', 'numpy.float32', 'kapture.Sensor', 'kapture.core.Sensors.Camera',
+                                            'os.system', 'builtins.eval', 'a.b', 'a.b.c', 'x.', 'a..b', 'a.b/c.jpg')]
+            + [('dotted-dataset', x) for x in ('sensors.Lidar', 'reconstruction.keypoints.SIFT', PLANTED + '.Sensor')])
 P_GENERAL = P_CODE + P_PATH + P_NUM + P_FMT + P_MISC + P_DTYPE_OK[:6] + P_DTYPE_NEAR[:6]
 P_DTYPE_ALL = P_DTYPE_OK + P_DTYPE_NEAR + P_CODE + P_PATH[:4] + P_NUM[:4] + P_FMT[:6] + P_MISC[:6]
 P_NAME = P_PATH + P_CODE[:3] + [('empty', ''), ('name', 'SIFT'), ('name', 'r2d2_WASF-N8_20k'), ('name', 'a.b'),
@@ -709,13 +749,39 @@ def gen_cases(rng, tier):
     # B. every field of every file
     for tgt in _positions(full[0]):
         for pcls, pl in rng.sample(P_GENERAL, 5 if big else 1):
-            if big or rng.random() < 0.6:
+            if big or rng.random() < 0.4:
                 var, tree = _variant_for(rng, full, tgt[0])
                 mk('load', tree, tgt, pcls, pl, var)
     for tgt in _positions(v10[0]):
         for pcls, pl in rng.sample(P_GENERAL, 3 if big else 1):
-            if big or rng.random() < 0.35:
+            if big or rng.random() < 0.25:
                 mk('upgrade', v10, tgt, pcls, pl, 'v10', rng.choice([[None, None, None], ['k', 'd', 'g']]))
+    # G. dotted names (module.Name) in EVERY field of every file, rotating through the candidates
+    dotted = [x for x in P_DOTTED if x[0] != 'dotted-dataset' or big]
+    for i, tgt in enumerate(_positions(full[0])):
+        for j in range(3 if big else 1):
+            pcls, pl = dotted[(i + 5 * j + rng.randrange(len(dotted))) % len(dotted)] if j else \
+                (('dotted-stdlib', P_DOTTED[i % len(DOTTED_MODULES)][1]) if tgt[0] == SENSORS or i % 2 == 0
+                 else dotted[rng.randrange(len(dotted))])
+            var, tree = _variant_for(rng, full, tgt[0], 0.9)
+            mk('load', tree, tgt, pcls, pl, var)
+    for i, tgt in enumerate(_positions(v10[0])):
+        if big or tgt[0] == SENSORS or rng.random() < 0.4:
+            pcls, pl = (('dotted-stdlib', P_DOTTED[i % len(DOTTED_MODULES)][1]) if i % 2 == 0 else dotted[rng.randrange(len(dotted))])
+            mk('upgrade', v10 if rng.random() < 0.3 else _subset(v10, _SENS if tgt[0].startswith('sensors/') else _FEATV), tgt,
+               pcls, pl, 'v10', [None, None, None])
+    # the dataset ships a python file and its folder is importable (cd dataset; python ...): module names of the dataset
+    for i, tgt in enumerate(_positions(full[0])):
+        if big or (tgt[0] == SENSORS and tgt[2] <= 3) or rng.random() < 0.06:
+            for pl in ((PLANTED + '.Sensor', 'sensors.Lidar') if (big or (tgt[0] == SENSORS and tgt[2] == 2)) else (PLANTED + '.Sensor',)):
+                var, tree = _variant_for(rng, full, tgt[0], 0.9)
+                mk('load', (tree[0], list(tree[1]) + [PLANTED + '.py']), tgt, 'dotted-dataset', pl, var + '+py')
+                cases[-1]['importable'] = True
+    for i, tgt in enumerate(_positions(v10[0])):
+        if (big and i % 3 == 0) or (tgt[0] == SENSORS and tgt[2] == 2):
+            mk('upgrade', (v10[0], list(v10[1]) + [PLANTED + '.py']), tgt, 'dotted-dataset', PLANTED + '.Sensor', 'v10+py',
+               [None, None, None])
+            cases[-1]['importable'] = True
     # C. version lines
     for p in sorted(full[0]):
         vs = P_VERSION if (p == SENSORS or big) else rng.sample(P_VERSION, 1)
@@ -829,7 +895,7 @@ def _desired(case):
     for rel, text in case['files'].items():
         want['ds/' + rel] = text.encode('utf-8')
     for rel in case['bins']:
-        want['ds/' + rel] = b'{}' if rel.endswith('.json') else b'\0' * 16
+        want['ds/' + rel] = _bin_content(rel)
     dirs = {'ds/'}
     for rel in want:
         parts = rel.split('/')[:-1]
@@ -873,7 +939,8 @@ def run_impl(case, ctx):
     _sync(base, before)
     w = _worker(ctx)
     try:
-        res = w.request({'cmd': 'case', 'op': case['op'], 'root': root, 'base': base, 'up_types': case.get('up_types')})
+        res = w.request({'cmd': 'case', 'op': case['op'], 'root': root, 'base': base, 'up_types': case.get('up_types'),
+                         'importable': bool(case.get('importable'))})
     except Exception as e:
         w.stop()
         marker = os.path.lexists(os.path.join(base, MARKER))
@@ -881,10 +948,10 @@ def run_impl(case, ctx):
         shutil.rmtree(base, ignore_errors=True)
         return {'died': str(e), 'outcome': 'error', 'exc': 'the interpreter running the implementation terminated',
                 'effects': [['Eval', None, 'interpreter terminated']], 'dir_events': [], 'leaf_events': [],
-                'marker': marker, 'changed': [], 'changed_outside': [], 'leaves': None}
+                'marker': marker, 'changed': [], 'changed_outside': [], 'leaves': None, 'new_modules': [], 'leaf_modules': []}
     after = _snapshot(base)
     _DISK[base] = after
-    marker = os.path.lexists(os.path.join(base, MARKER))
+    marker = os.path.lexists(os.path.join(base, MARKER)) or os.path.lexists(os.path.join(root, MARKER))
     changed = sorted(k for k in set(before) | set(after) if before.get(k) != after.get(k))
     changed_outside = [k for k in changed if not (k == 'ds/' or k.startswith('ds/'))]
     effects, seen, dir_events = [], set(), []
@@ -899,10 +966,15 @@ def run_impl(case, ctx):
         if key not in seen:
             seen.add(key)
             effects.append([kind, rel, detail])
+    new_modules = res.get('new_modules', [])
+    if new_modules and ('Import', None) not in seen:
+        # the import machinery raises no "import" event for importlib.import_module: the growth of sys.modules does
+        effects.append(['Import', None, 'sys.modules grew: ' + ','.join(new_modules[:4])])
     obs = {'outcome': res['outcome'], 'exc': res['exc'], 'effects': effects, 'dir_events': dir_events,
+           'new_modules': new_modules, 'leaf_modules': res.get('leaf_modules', []),
            'leaf_events': res['leaf_events'], 'marker': marker, 'changed': changed[:40],
            'changed_outside': changed_outside[:10], 'leaves': res['leaves']}
-    if marker or any(k in ('Spawn', 'Import', 'Net') or
+    if marker or new_modules or obs['leaf_modules'] or any(k in ('Spawn', 'Import', 'Net') or
                      (k == 'Eval' and d.startswith('compile:') and not re.fullmatch(r'compile:[A-Za-z0-9_.]*', d))
                      for k, _, d in effects):
         w.stop()          # whatever ran may have changed the interpreter state: next case gets a fresh worker
@@ -954,6 +1026,10 @@ def oracle(case, obs):
         return 'the interpreter terminated while the dataset was read (content executed?)'
     if obs['marker']:
         return 'file content was executed: the marker file of the payload was created'
+    if obs.get('new_modules'):
+        return 'module(s) imported while %s: sys.modules grew' % ('loading' if case['op'] == 'load' else 'upgrading')
+    if obs.get('leaf_modules'):
+        return 'a leaf converter imports a module: sys.modules grew'
     for kind, rel, detail in obs['effects']:
         if kind in _FORBIDDEN:
             return 'forbidden effect %s (%s) while %s' % (kind, detail.split(':')[0], 'loading' if case['op'] == 'load' else 'upgrading')
